@@ -721,10 +721,10 @@ attribute recorded on both sides. (CFilter) real ReplIncrementalEntryV1::new on 
 something was filtered out"
         .into();
     // function-level cases first (cheap), in their own shards
-    let (n_apply, n_filter) = if args.thorough { (6000, 1500) } else { (900, 240) };
+    let (n_apply, n_filter) = if args.thorough { (4000, 1000) } else { (900, 240) };
     function_cases(&mut rng, &mut sink, n_apply, n_filter);
     let rt = tokio::runtime::Builder::new_current_thread().enable_all().build().expect("rt");
-    let n_hist: u64 = if args.thorough { 900 } else { 96 };
+    let n_hist: u64 = if args.thorough { 600 } else { 96 };
     let group_size: u64 = 8;
     let max_len = if args.thorough { 40 } else { 24 };
     rt.block_on(async {
